@@ -49,7 +49,14 @@ COLUMN_PROFILE = {
     "nitems": [1, 2, 3],
     "colref_style": ["unq", "qual", "fullqual"],
     "alias_reuse": True,
+    "colname_reuse": True,
 }
+
+# further centres of the deviation ball (same alternatives, other defaults at the top level of the query)
+COLUMN_RICH_JOIN = dict(COLUMN_PROFILE, top={"from": ["join"], "rel": ["base_alias"], "nitems": [2], "colref_style": ["qual"]})
+COLUMN_RICH_DERIVED = dict(COLUMN_PROFILE, top={"from": ["join"], "rel": ["derived"], "nitems": [2], "colref_style": ["qual"]})
+COLUMN_RICH_CTE = dict(COLUMN_PROFILE, top={"query": ["with"], "from": ["join"], "rel": ["cte_alias", "base_alias"], "nitems": [2], "colref_style": ["qual"]})
+CENTRES = {"simple": COLUMN_PROFILE, "join": COLUMN_RICH_JOIN, "derived": COLUMN_RICH_DERIVED, "cte": COLUMN_RICH_CTE}
 
 
 class Ctx:
@@ -87,8 +94,15 @@ class Ctx:
         self.nx += 1
         return f"x{self.nx}"
 
+    def is_top(self, path):
+        return not any(x in path for x in (".sub", ".cte", "m.sub"))
+
     def alts(self, key, path, extra_filter=None):
         alts = list(self.p[key])
+        top = self.p.get("top")
+        if top and key in top and self.is_top(path):
+            # another centre for the deviation ball: the same alternatives, a different default at the top level
+            alts = list(top[key]) + [a for a in alts if a not in top[key]]
         if extra_filter:
             alts = [a for a in alts if extra_filter(a)]
         return self.ch.pick(f"{path}.{key}", alts)
@@ -199,12 +213,17 @@ def rel_info(ctx: Ctx, r):
 
 
 def gen_colref(ctx: Ctx, rels, path: str):
-    r = rels[ctx.ch.choose(f"{path}.rel", len(rels))] if len(rels) > 1 else rels[0]
+    rot = 0
+    if ctx.p.get("top") and ctx.is_top(path) and ".item[" in path:
+        rot = int(path.split(".item[")[1].split("]")[0])  # rich centres: the i-th item reads the i-th relation by default
+    r = rels[(ctx.ch.choose(f"{path}.rel", len(rels)) + rot) % len(rels)] if len(rels) > 1 else rels[0]
     style = ctx.alts("colref_style", path)
     qual, names = rel_info(ctx, r)
     ctx.nc += 1
     usable = [n for n in (names or []) if n]
     name = usable[0] if usable else f"c{ctx.nc}"
+    if not usable and ctx.p.get("colname_reuse") and ctx.nc > 1 and ctx.ch.choose(f"{path}.colname_reuse", 2) == 1:
+        name = "c1"  # the same column name in another place: identity-by-name is exactly where this matters
     if style == "fullqual":  # schema.table.column where the relation is an unaliased schema-qualified table
         if r["k"] == "base" and r["t"]["s"] and not r["alias"]:
             qual = f"{r['t']['s']}.{r['t']['n']}"
@@ -283,7 +302,7 @@ def gen_tail(ctx: Ctx, depth: int, path: str):
 
 def gen_select(ctx: Ctx, depth: int, path: str, arity=None, no_star=False):
     frm = gen_from(ctx, depth, path + ".from")
-    n = arity if arity is not None else ctx.ch.pick(path + ".nitems", ctx.p["nitems"])
+    n = arity if arity is not None else ctx.alts("nitems", path)
     no_star = no_star or (arity is not None and arity > 1)
     items = [gen_item(ctx, frm["rels"], depth, f"{path}.item[{i}]", no_star=no_star) for i in range(n)]
     if len(items) > 1 and any(it["e"][0] == "star" for it in items) and arity is not None:
@@ -397,6 +416,19 @@ class R:
     def local(self, name):
         return self.rename.get(name, name) if name else name
 
+    def qualifier(self, q):
+        """a column qualifier under the renaming: renamed local name, added alias ('+table' -> alias) or removed alias
+        (alias -> '-table')"""
+        if q is None:
+            return None
+        new = self.rename.get(q)
+        if new is not None:
+            return new[1:] if new.startswith("-") else new
+        bare = q.rsplit(".", 1)[-1]
+        if "+" + bare in self.rename:
+            return self.rename["+" + bare]
+        return q
+
     def table(self, t, quoted=False):
         s = t["s"] if t["s"] is not None else self.qualify
         n = self.quote(t["n"]) if quoted else t["n"]
@@ -413,9 +445,9 @@ class R:
 def r_expr(e, o: R):
     k = e[0]
     if k == "col":
-        return f"{o.local(e[1])}.{e[2]}" if e[1] else e[2]
+        return f"{o.qualifier(e[1])}.{e[2]}" if e[1] else e[2]
     if k == "star":
-        return f"{o.local(e[1])}.*" if e[1] else "*"
+        return f"{o.qualifier(e[1])}.*" if e[1] else "*"
     if k == "lit":
         return "1"
     if k == "func":
@@ -448,15 +480,23 @@ def r_item(it, o: R):
 def r_rel(r, o: R):
     if r["k"] == "base":
         s = o.table(r["t"], r.get("quoted", False))
-        if r["alias"]:
-            use_as = r["as"] != o.as_toggle
-            s += (" AS " if use_as else " ") + o.local(r["alias"])
+        alias = r["alias"]
+        use_as = r["as"] != o.as_toggle
+        if alias:
+            alias = o.local(alias)
+            if alias.startswith("-"):
+                alias = None  # alias removed: the table is referred to by its own name
+        elif "+" + r["t"]["n"] in o.rename:
+            alias = o.rename["+" + r["t"]["n"]]  # alias added
+            use_as = o.as_toggle
+        if alias:
+            s += (" AS " if use_as else " ") + alias
         return s
     if r["k"] == "derived":
         return f"({r_query(r['q'], o)}) {o.local(r['alias'])}"
     s = o.local(r["name"])
     if r.get("quoted"):
-        s = o.quote(s)
+        s = o.quote(s.lower())  # the CTE is defined unquoted, i.e. lower-case: the quoted reference must spell that
     if r["alias"]:
         s += " " + o.local(r["alias"])
     return s
@@ -558,7 +598,7 @@ def render(st, o: R | None = None) -> str:
         return sql
     if k == "merge":
         u = st["using"]
-        ua = o.local(u["alias"])
+        ua = o.qualifier(u["alias"])
         ta = st["talias"]
         src = r_rel(u, o)
         up = ", ".join(f"{ta}.{c} = {ua}.{s}" for c, s in st["update"])
